@@ -57,6 +57,23 @@ def step (t : List String) : String :=
     (match parse 7 2 a with
      | some ([s, t, rd, rf, tg, vol, ks], [ty, m]) => showExcept showFloat (solve_for_strike s t rd rf ty tg m vol ks)
      | _ => "bad-op")
+  | "gamma" :: a =>
+    (match parse 6 0 a with
+     | some ([t, s, dd, df, k, vol], []) => showExcept showFloat (fx_vanilla_gamma t s dd df k vol)
+     | _ => "bad-op")
+  | "vega" :: a =>
+    (match parse 6 0 a with
+     | some ([t, s, dd, df, k, vol], []) => showExcept showFloat (fx_vanilla_vega t s dd df k vol)
+     | _ => "bad-op")
+  | "theta" :: a =>
+    (match parse 6 1 a with
+     | some ([t, s, dd, df, k, vol], [ty]) => showExcept showFloat (fx_vanilla_theta t s dd df k vol ty)
+     | _ => "bad-op")
+  | "digi" :: a =>
+    (match parse 8 4 a with
+     | some ([td, te, s, dd, df, k, n, vol], [ty, pc, dn, fn]) =>
+       showExcept showFloat (fx_digital_value td te s dd df k n vol ty pc dn fn)
+     | _ => "bad-op")
   | ["ninv", x] => (match float? x with | some x => showExcept showFloat (norminvcdf x) | none => "bad-op")
   | _ => "bad-op"
 
